@@ -32,7 +32,7 @@ def post(chk, recs, cases):
     for r in recs:
         if "stats" in r:
             chk.notes.append("run statistics: " + ", ".join("%s=%s" % kv for kv in sorted(r["stats"].items())))
-    chk.notes.append("end-to-end tolerance: eps = 2^-23 * (1 + #overlap entries of the decomposition actually used) relative to the residual scales of E2E.kkt_ok (2^-10 when a reduced-accuracy status is involved); PSD membership: M + eps(1+max|M|) I positive definite, decided exactly by fraction-free elimination")
+    chk.notes.append("end-to-end tolerance: eps = 2^-23 * (1 + #overlap entries of the decomposition actually used) (2^-10 when a reduced-accuracy status is involved); primal residual <= eps*(1+|b|+|x|+2|s|); dual residual <= eps*(1+|A|_1)*(1+|q|+|x|+2|s|+|z|); |pobj-dobj| <= eps*((1+min(|pobj|,|dobj|)) + |b_finite|_1*(1+|q|+|x|+2|s|+|z|)); derivation in Chordal/E2E.v (the solver terminates on the DECOMPOSED problem; the reversed z differs from the dual that sits with the row data by the dual residuals of the tying columns). PSD membership: M + eps(1+max|M|) I positive definite, decided exactly by fraction-free elimination")
     chk.notes.append("runs with presolve off replace 1e20 bounds by the loose finite bound 1000 (the solver does not converge on 1e20 data with or without decomposition)")
 
 
